@@ -25,6 +25,7 @@ def main(names, tier="quick", props=None):
                 print(d.name, p, results[f"{d.name}:{p}"], flush=True)
         finally:
             sh("git -C /repo checkout -- .")
+            sh("git -C /verif checkout -- evidence")      # evidence written against a mutated tree is not evidence
     return results
 
 if __name__ == "__main__":
